@@ -142,7 +142,9 @@ class C19(PropCheck):
         d[str(case.get("dim"))] = d.get(str(case.get("dim")), 0) + 1
         o = acc.setdefault("outcomes", {})
         for k, v in info.items():
-            if v:
+            if k.startswith("history_"):
+                o[k] = o.get(k, 0) + int(v)
+            elif v:
                 o[k] = o.get(k, 0) + 1
         o["cases"] = o.get("cases", 0) + 1
 
@@ -184,7 +186,7 @@ class C19(PropCheck):
                     chosen=[[i, p[i]] for i in range(n)], wcoords=base, weights=ws, wcoords2=c2,
                     weights2=[ws[i] for i in p], wpos=[base[p[-1]]],
                     ldm=[[i, ws[i]] for i in p], rdm=[[i, ws[p[i]]] for i in range(n)],
-                    direct=[], dids=[],
+                    direct=[], dids=[], history=(p == perms[0] or p == perms[-1]),
                 )
                 _, v = c19_impl.run(case)
                 viols += v
